@@ -895,6 +895,9 @@ private:
    */
   void reduce_num_cst_to_bool(const variable_t &x,
 			      const linear_constraint_t &cst) {
+    // x is redefined: forget the constraints of its previous definition
+    m_bool_to_lincsts -= x;
+    m_bool_to_refcsts -= x;
     if (cst.is_tautology()) {
       m_product.first().set_bool(x, boolean_value::get_true());
     } else if (cst.is_contradiction()) {
@@ -925,6 +928,9 @@ private:
    */  
   void reduce_ref_cst_to_bool(const variable_t &x,
 			      const reference_constraint_t &cst) {
+    // x is redefined: forget the constraints of its previous definition
+    m_bool_to_lincsts -= x;
+    m_bool_to_refcsts -= x;
     if (cst.is_tautology()) {
       m_product.first().set_bool(x, boolean_value::get_true());
     } else if (cst.is_contradiction()) {
